@@ -111,8 +111,21 @@ func oTargetID(a common.Address) (id int, qi bool, ok bool) {
 		return id, true, true
 	case b[0] == 0x01 && b[1] == 0x10:
 		return id, false, true
+	case b[0] == 0x00 && b[1] == 0x11: // Quai address of the OWN zone (target of an "etxhome" operation)
+		return id, false, true
 	}
 	return 0, false, false
+}
+
+// target of an ETX opcode that stays inside the emitting zone (must be refused): the Qi address
+// a conversion would use, or a Quai address of the zone
+func oHomeTarget(qi bool, id int) common.Address {
+	if qi {
+		return oTarget(true, id)
+	}
+	b := make([]byte, 20)
+	b[0], b[1], b[18], b[19] = 0x00, 0x11, byte(id>>8), byte(id)
+	return common.BytesToAddress(b, oLoc)
 }
 
 // ---------- assembler ----------
@@ -176,7 +189,7 @@ func assembleMain(f *OFrame, blobs [][]byte, base int) []byte {
 			a.pushU(0)
 			a.op(vm.CONVERT)
 			a.op(vm.POP)
-		case "etx": // ETX pops: temp, addr, value, etxGasLimit, gasTipCap, gasFeeCap, inOffset, inSize, accessListOffset, accessListSize
+		case "etx", "etxhome": // ETX pops: temp, addr, value, etxGasLimit, gasTipCap, gasFeeCap, inOffset, inSize, accessListOffset, accessListSize
 			a.pushU(0)
 			a.pushU(0)
 			a.pushU(0)
@@ -185,7 +198,11 @@ func assembleMain(f *OFrame, blobs [][]byte, base int) []byte {
 			a.pushU(o.Tip)
 			a.pushU(o.Gas)
 			a.pushBig(o.Value)
-			a.push20(oTarget(false, o.ID))
+			if o.K == "etxhome" {
+				a.push20(oHomeTarget(o.Kind == "qi", o.ID))
+			} else {
+				a.push20(oTarget(false, o.ID))
+			}
 			a.pushU(0)
 			a.op(vm.ETX)
 			a.op(vm.POP)
@@ -305,6 +322,11 @@ func (w *oWalk) walk(f *OFrame, ctx int, doomed string) {
 		case "convert", "etx":
 			w.ops[o.ID] = &oInfo{op: o, ctx: ctx, doomed: doomed, inFrame: true}
 			w.events = append(w.events, fmt.Sprintf("EEmit %d %d %s false %s %s %d", o.ID, ctx, hlib.CoqBool(o.K == "convert"), z(bi(o.Value)), z(w.fee(o)), o.Gas))
+		case "etxhome": // ETX opcode with a destination inside the emitting zone: refused, nothing happens
+			w.ops[o.ID] = &oInfo{op: o, ctx: ctx, doomed: doomed, inFrame: true}
+			// the Coq model has no in-zone guard: the event carries ETX gas 0, which the model refuses at its TxGas
+			// guard (and which still fails the frame under STATICCALL, as the real write protection does)
+			w.events = append(w.events, fmt.Sprintf("EEmit %d %d false false %s %s 0", o.ID, ctx, z(bi(o.Value)), z(w.fee(o))))
 		case "callqi", "callext":
 			w.ops[o.ID] = &oInfo{op: o, ctx: ctx, doomed: doomed, inFrame: true}
 			w.tied = false // the behaviour of CALL on a non-internal target inside a frame is not part of the model
@@ -364,7 +386,7 @@ func runOrigin(c OriginJS, cw *hlib.CaseWriter, rep *hlib.Report) {
 		switch o.K {
 		case "convert":
 			return new(big.Int).Mul(gasPrice, new(big.Int).SetUint64(o.Gas))
-		case "etx":
+		case "etx", "etxhome":
 			return new(big.Int).Mul(new(big.Int).SetUint64(o.Tip+o.Cap), new(big.Int).SetUint64(o.Gas))
 		}
 		return big.NewInt(0)
@@ -540,6 +562,12 @@ func runOrigin(c OriginJS, cw *hlib.CaseWriter, rep *hlib.Report) {
 			wantGas = c.TopGas - params.ETXGas
 		case "callqi", "callext":
 			wantGas = etx.Gas()
+		}
+		if info.op.K == "etxhome" {
+			// only a conversion (CONVERT / CreateETX: repriced by Prime) may address the emitting zone; the ETX
+			// opcode must refuse every destination inside it, whatever the ledger
+			rep.Fail("origin:etx-opcode-emits-inside-own-zone:"+info.op.Kind, fmt.Sprintf("operation %d (ETX opcode, value %s) targets %x inside the emitting zone and its ETX (type %d) is in evm.ETXCache: it would be credited in the zone without being repriced by Prime",
+				id, info.op.Value, etx.To().Bytes(), etx.EtxType()), c)
 		}
 		switch {
 		case seen[id]:
@@ -749,6 +777,22 @@ func corpusOrigin() []OriginJS {
 			{K: "convert", ID: ids.next(), Value: oq(1), Gas: 21000}}}
 		add("call-to-qi-inside-frame-"+e, "call", root)
 	}
+	// the ETX opcode aimed at the emitting zone itself (Qi address a conversion would use / Quai address of the
+	// zone): must be a no-op, alone, next to a real conversion, and inside every call kind (class of seeded/C20_5)
+	for _, led := range []string{"qi", "quai"} {
+		ids := &oIDs{n: 1}
+		add("etx-opcode-own-zone-"+led, "call", &OFrame{ID: ids.next(), Bal: oq(1000), End: "stop", Ops: []OOp{
+			{K: "etxhome", Kind: led, ID: ids.next(), Value: oq(3), Gas: 100000, Tip: 1, Cap: 2},
+			{K: "convert", ID: ids.next(), Value: oq(2), Gas: 21000},
+			{K: "etxhome", Kind: led, ID: ids.next(), Value: "12345", Gas: 21000}}})
+		for _, k := range kinds {
+			ids := &oIDs{n: 1}
+			child := &OFrame{ID: ids.next(), Bal: oq(1000), End: "stop", Ops: []OOp{{K: "etxhome", Kind: led, ID: ids.next(), Value: oq(1), Gas: 50000, Tip: 1, Cap: 1}}}
+			root := &OFrame{ID: ids.next(), Bal: oq(1000), End: "stop", Ops: []OOp{{K: "sub", ID: ids.next(), Kind: k, Gas: 2000000, Child: child},
+				{K: "etx", ID: ids.next(), Value: "777", Gas: 21000, Tip: 1, Cap: 2}}}
+			add("etx-opcode-own-zone-"+led+"-under-"+k, "call", root)
+		}
+	}
 	return out
 }
 
@@ -793,7 +837,14 @@ func genOFrame(r *hlib.Rng, ids *oIDs, depth int, budget *int, untied *bool) *OF
 			}
 			f.Ops = append(f.Ops, o)
 		case k == 1:
-			f.Ops = append(f.Ops, OOp{K: "etx", ID: ids.next(), Value: new(big.Int).SetUint64(r.Next() % 1000000007).String(), Gas: 21000 + uint64(r.Intn(1000)), Tip: uint64(r.Intn(3)), Cap: uint64(r.Intn(5))})
+			o := OOp{K: "etx", ID: ids.next(), Value: new(big.Int).SetUint64(r.Next() % 1000000007).String(), Gas: 21000 + uint64(r.Intn(1000)), Tip: uint64(r.Intn(3)), Cap: uint64(r.Intn(5))}
+			switch o.Gas % 8 { // a share of the ETX opcodes aims at the emitting zone itself (derived, no randomness consumed)
+			case 0:
+				o.K, o.Kind = "etxhome", "qi"
+			case 1:
+				o.K, o.Kind = "etxhome", "quai"
+			}
+			f.Ops = append(f.Ops, o)
 		case depth < 4:
 			kind := []string{"call", "callcode", "delegatecall", "staticcall", "create"}[r.Pick(4, 2, 5, 2, 3)]
 			if kind == "create" && depth > 2 {
